@@ -6,3 +6,38 @@ func VerifC10_q_moveBetweenNodes() {
 	vpReincarnation(vpScenarioOpts{prop: "C10", topos: []int{0}, kinds: []int{vpKindSts, vpKindDp}, withProvider: true, earlySteps: 1, lateSteps: 1,
 		nodes: []string{"n1", "n5", "n2", "n3"}, faults: true, retryBind: true})
 }
+
+
+// BOUND: cloud provider configured; topology 0; a statefulset pod requesting two disjoint ranges (two IPs), symbolic policy; bound on n1, then finished and/or deleted, events handled or lost, resync, API release of either IP (2 housekeeping steps); no faults
+func VerifC10_q_multiIPPod() {
+	w := vpNewWorld(0, true)
+	if err := w.configure(); err != nil {
+		return
+	}
+	w.setStatefulSet(2)
+	policy := nondetPick("", "immutable", "never")
+	name := "ss-0"
+	w.createPod(vpMakePod(name, "U1", vpKindSts, policy, "", `[["10.1.0.10"],["10.1.0.11~10.1.0.12"]]`))
+	w.syncListers()
+	nodes, err := w.filter(name, "n1", "n5", "n3")
+	if err != nil || len(nodes) == 0 {
+		return
+	}
+	if w.bind(name, nodes[nondetChoice(len(nodes))]) != nil {
+		return
+	}
+	w.checkAll("C10", "bind of a two-IP pod")
+	w.setRunning(name)
+	w.syncListers()
+	if nondetBool() {
+		w.finishPod(name)
+		w.syncListers()
+	} else {
+		w.deletePod(name)
+		w.syncListers()
+	}
+	for i := 0; i < 2; i++ {
+		w.anyHousekeeping("C10", true)
+	}
+	verifReach("housekeeping-done")
+}
